@@ -80,7 +80,8 @@ def run_histories(ctx, exe, hists, timeout=1800):
         if r.returncode == 0:
             raise vlib.MachineryError('driver stopped answering at %r' % (flat[len(got)][1],))
         hi, line = flat[len(got)]
-        events[hi].append({'e': 'Abort', 'line': line, 'stderr': r.stderr[-1200:]})
+        keyl = [l.strip() for l in r.stderr.splitlines() if 'ERROR:' in l or 'SUMMARY:' in l or 'assertion failed' in l.lower()]
+        events[hi].append({'e': 'Abort', 'line': line, 'stderr': ' | '.join(keyl[:3])[:600] or r.stderr[-600:]})
         deaths.append((hi, line))
         if len(deaths) > 40:
             raise vlib.MachineryError('driver keeps dying: %s' % r.stderr[-600:])
